@@ -2,7 +2,8 @@
 C16 — property theorems about the INSTANCES used by the correspondence run: the numeric hypotheses of
 the Laws structures (LawsSig / LawsField / PropsPfok) hold for every standard parameter set regenerated
 from the C sources, and the single Montgomery constant of pfok.  The scheme theorems themselves are in
-PropsB96, PropsG12, PropsDstuSig, PropsDstuPoint, PropsPfok.
+PropsB96, PropsG12, PropsDstuSig, PropsDstuPoint, PropsPfok, PropsDstuSub (subgroup ⇒ trace, round trip for group
+elements) and PropsC06 (the laws discharged by Mathlib's curve groups, bridges to the C06 theorems about ec.c).
 -/
 import Bee2V.C16.Inst
 import Bee2V.C16.PropsB96
@@ -11,6 +12,8 @@ import Bee2V.C16.PropsDstuSig
 import Bee2V.C16.PropsDstuPoint
 import Bee2V.C16.PropsPfok
 import Bee2V.C16.ToySig
+import Bee2V.C16.PropsDstuSub
+import Bee2V.C16.PropsC06
 namespace Bee2V.C16
 open Bee2V.Gen
 
